@@ -790,12 +790,23 @@ proof fn lemma_ptree_init(has: ArcRel, srcs: Set<int>, qv: Seq<int>, vis: Seq<bo
 proof fn lemma_ptree_final(has: ArcRel, srcs: Set<int>, qv: Seq<int>, vis: Seq<bool>, pr: Seq<Option<usize>>)
     requires
         ptree(has, srcs, qv, vis, pr),
+        pr.len() <= usize::MAX,
         forall|v: int| is_done(qv, vis, v) <==> reachable(has, srcs, v),
     ensures
         forall|v: int| 0 <= v < pr.len() && srcs.contains(v) ==> #[trigger] pr[v] is None,
         forall|v: int| 0 <= v < pr.len() && !reachable(has, srcs, v) ==> #[trigger] pr[v] is None,
         forall|v: int| 0 <= v < pr.len() && reachable(has, srcs, v) && !srcs.contains(v) ==> tight_pred(has, srcs, #[trigger] pr[v], v),
+        forall|v: int| #[trigger] reachable(has, srcs, v) ==> 0 <= v < pr.len() && root_at(has, srcs, pr, v),
 {
+    assert forall|v: int| #[trigger] reachable(has, srcs, v) implies 0 <= v < pr.len() && root_at(has, srcs, pr, v) by {
+        assert(is_done(qv, vis, v));
+        assert(pr.len() == vis.len()) by { reveal(ptree); }
+        assert(pnode_ok(has, srcs, qv, vis, pr, v)) by { reveal(ptree); }
+        let h = hop(has, srcs, v);
+        lemma_min_nonneg(has, srcs, v, h);
+        assert((v as usize) as int == v);
+        lemma_chain_to_source(has, srcs, qv, vis, pr, v as usize, h as nat);
+    }
     reveal(ptree);
     assert forall|v: int| 0 <= v < pr.len() && srcs.contains(v) implies #[trigger] pr[v] is None by {
         lemma_src_reachable(has, srcs, v);
@@ -821,6 +832,24 @@ spec fn tight_pred(has: ArcRel, srcs: Set<int>, e: Option<usize>, v: int) -> boo
         None => false,
         Some(u) => has(u as int, v) && reachable(has, srcs, u as int) && exists|l: int| is_min_walk_weight(has, unit_w(), srcs, u as int, l) && is_min_walk_weight(has, unit_w(), srcs, v, l + 1),
     }
+}
+
+/// C05: "following predecessors from v reaches a source along a shortest path": after exactly hop(v) links (every link
+/// is an arc by tight_pred, and no walk from a source to v has fewer than hop(v) arcs)
+spec fn root_at(has: ArcRel, srcs: Set<int>, pr: Seq<Option<usize>>, v: int) -> bool {
+    let h = hop(has, srcs, v);
+    &&& h >= 0
+    &&& is_min_walk_weight(has, unit_w(), srcs, v, h)
+    &&& chain(pr, v as usize, h as nat) matches Some(s) && s < pr.len() && pr[s as int] is None && srcs.contains(s as int)
+}
+
+/// a lower bound is at most the minimum
+proof fn lemma_lb_le(has: ArcRel, srcs: Set<int>, t: int, lb: int, l: int)
+    requires is_lower_bound(has, unit_w(), srcs, t, lb), is_min_walk_weight(has, unit_w(), srcs, t, l),
+    ensures lb <= l,
+{
+    let p = choose|p: Seq<int>| walk_from_to(has, srcs, t, p) && walk_weight(unit_w(), p) == l;
+    assert(walk_from_to(has, srcs, t, p));
 }
 
 proof fn lemma_chain_shift(pr: Seq<Option<usize>>, s: usize, u: usize, k: nat)
